@@ -2,6 +2,7 @@
 namespace Larking.Expected.C04
 
 def conds_parseAccept : List String := [
+   "func parseAccept(values []string) (specs []acceptSpec)",
    "range values",
    "for",
    "if spec.Value == \"\"",
@@ -13,6 +14,7 @@ def conds_parseAccept : List String := [
   ]
 
 def conds_expectQuality : List String := [
+   "func expectQuality(s string) (q float64, rest string)",
    "switch",
    "case len(s) == 0",
    "return -1, \"\"",
@@ -28,6 +30,7 @@ def conds_expectQuality : List String := [
   ]
 
 def conds_negotiateContentType : List String := [
+   "func negotiateContentType(header http.Header, offers []string, defaultOffer string) string",
    "range offers",
    "range specs",
    "switch",
@@ -43,6 +46,7 @@ def conds_negotiateContentType : List String := [
   ]
 
 def conds_negotiateContentEncoding : List String := [
+   "func negotiateContentEncoding(header http.Header, offers []string) string",
    "range offers",
    "range specs",
    "if spec.Q > bestQ && (spec.Value == \"*\" || spec.Value == offer)",
@@ -51,6 +55,7 @@ def conds_negotiateContentEncoding : List String := [
   ]
 
 def conds_streamHTTP_SendMsg : List String := [
+   "func (*streamHTTP) SendMsg(m interface{}) error",
    "if err != nil",
    "return err",
    "if err != nil",
@@ -67,7 +72,36 @@ def conds_streamHTTP_SendMsg : List String := [
    "return nil"
   ]
 
+def stmts_streamHTTP_SendMsg : List String := [
+   "reply := m.(proto.Message)",
+   "cur, err := mutablePath(reply.ProtoReflect(), s.method.resp)",
+   "msg := cur.Interface()",
+   "contentType := s.accept",
+   "c, err := s.getCodec(contentType, cur)",
+   "bytes := bytesPool.Get().(*[]byte)",
+   "b := (*bytes)[:0]",
+   "defer func(…)",
+   "func-literal",
+   "*bytes = b",
+   "bytesPool.Put(bytes)",
+   "fds := cur.Descriptor().Fields()",
+   "fdContentType := fds.ByName(protoreflect.Name(\"content_type\"))",
+   "fdData := fds.ByName(protoreflect.Name(\"data\"))",
+   "pContentType := cur.Get(fdContentType)",
+   "pData := cur.Get(fdData)",
+   "b = append(b, pData.Bytes()...)",
+   "contentType = pContentType.String()",
+   "var err error",
+   "b, err = c.MarshalAppend(b, msg)",
+   "_, err := s.writeMsg(c, b, contentType)",
+   "fRsp, ok := s.w.(http.Flusher)",
+   "fRsp.Flush()",
+   "stats := s.opts.statsHandler",
+   "stats.HandleRPC(s.ctx, outPayload(false, m, b, time.Now()))"
+  ]
+
 def conds_streamHTTP_writeMsg : List String := [
+   "func (*streamHTTP) writeMsg(c Codec, b []byte, contentType string) (int, error)",
    "if count == 0",
    "if !s.sentHeader",
    "if err := s.SendHeader(nil); err != nil",
@@ -77,6 +111,40 @@ def conds_streamHTTP_writeMsg : List String := [
    "return count, fmt.Errorf(\"codec %s does not support streaming\", codec.Name())",
    "return count, err",
    "return count, s.opts.writeAll(s.w, b)"
+  ]
+
+def conds_NewMux : List String := [
+   "func NewMux(opts ...MuxOption) (*Mux, error)",
+   "range opts",
+   "if muxOpts.codecs == nil",
+   "range defaultCodecs",
+   "if _, ok := muxOpts.codecs[k]; !ok",
+   "range muxOpts.codecs",
+   "range muxOpts.codecs",
+   "if _, ok := v.(codecHTTPBody); ok",
+   "if muxOpts.compressors == nil",
+   "range defaultCompressors",
+   "if _, ok := muxOpts.compressors[k]; !ok",
+   "range muxOpts.codecs",
+   "return &Mux{ opts: muxOpts, }, nil"
+  ]
+
+def stmts_NewMux : List String := [
+   "// Apply options. var muxOpts = defaultMuxOptions",
+   "opt(&muxOpts)",
+   "muxOpts.codecs = make(map[string]Codec)",
+   "_, ok := muxOpts.codecs[k]",
+   "muxOpts.codecs[k] = v",
+   "muxOpts.codecsByName = make(map[string]Codec)",
+   "muxOpts.codecsByName[v.Name()] = v",
+   "_, ok := v.(codecHTTPBody)",
+   "muxOpts.contentTypeOffers = append(muxOpts.contentTypeOffers, k)",
+   "sort.Strings(muxOpts.contentTypeOffers)",
+   "muxOpts.compressors = make(map[string]Compressor)",
+   "_, ok := muxOpts.compressors[k]",
+   "muxOpts.compressors[k] = v",
+   "muxOpts.encodingTypeOffers = append(muxOpts.encodingTypeOffers, k)",
+   "sort.Strings(muxOpts.encodingTypeOffers)"
   ]
 
 end Larking.Expected.C04
